@@ -46,6 +46,8 @@ def run(ctx):
         crate = ctx.crates.get(kind)
         if crate is None:
             continue
+        import inline as _inl
+        ref_adts = {k.split('::')[-1] for k in (_inl.known().get(kind + '_adts') or {})}
         for ty in e7.exact_size_impls(crate):
             res, info = e7.check_type(crate, ty)
             if res is None:
@@ -53,6 +55,12 @@ def run(ctx):
             n_impl += 1
             for f in info or ():
                 ctx.touch(f)
+            if ref_adts and str(ty).split('<')[0].split('::')[-1] not in ref_adts:
+                # an iterator type the reference tree does not have (an adaptor extracted by a refactor): the named view
+                # is not built from it directly; its contract is reported as evidence only
+                bad_ = [inst for inst, ok, detail, line in (res or [])if not ok]
+                ctx.sres(bool(res) and not bad_, rule, '%s:%s:new-type' % (rule, ty), 'size_hint() of a new ExactSizeIterator type matches what next() yields', '', 'not proved for: %s' % (bad_ or 'no source recognised' if not res else bad_))
+                continue
             if not res:
                 ctx.bad(rule, '%s:%s:no-source' % (rule, ty), 'size_hint is derived from the sources next() advances', '', 'no advanced source recognised in next() of %s' % ty)
             for inst, ok, detail, line in res:
